@@ -240,7 +240,7 @@ class RunRecord:
 
 
 class alarm:
-    """Per-event wall-clock guard.  A hang is an incident of the property under test, verified by fresh replay."""
+    """Per-event CPU-time guard.  A hang is an incident of the property under test, verified by fresh replay."""
 
     def __init__(self, seconds=EVENT_TIMEOUT_S):
         self.s = seconds
@@ -248,13 +248,15 @@ class alarm:
     def _h(self, *_):
         raise SimTimeout()
 
+    # CPU time of this process, not wall-clock time: a worker that is merely descheduled on a loaded machine must not
+    # look like a hang, while a genuine endless loop burns CPU and fires.
     def __enter__(self):
-        self.old = signal.signal(signal.SIGALRM, self._h)
-        signal.setitimer(signal.ITIMER_REAL, self.s)
+        self.old = signal.signal(signal.SIGPROF, self._h)
+        signal.setitimer(signal.ITIMER_PROF, self.s)
 
     def __exit__(self, *a):
-        signal.setitimer(signal.ITIMER_REAL, 0)
-        signal.signal(signal.SIGALRM, self.old)
+        signal.setitimer(signal.ITIMER_PROF, 0)
+        signal.signal(signal.SIGPROF, self.old)
         return False
 
 
